@@ -67,7 +67,7 @@ func plan() []group {
 		}
 	}
 	// buffered vs queue
-	bufExhLen = mon.Pick(10, 16)
+	bufExhLen = mon.Pick(14, 18)
 	for a := 0; a <= 5; a++ {
 		for b := 0; b <= 5; b++ {
 			gs = append(gs, group{kind: "buf-exh", a: a, b: b, n: bufExhLen})
